@@ -318,11 +318,18 @@ func (t *Transport) Shutdown(ctx context.Context) error {
 		unregisterFunc()
 	}
 
-	t.dtChannelsLk.Lock()
-	defer t.dtChannelsLk.Unlock()
+	// Don't hold dtChannelsLk while waiting for the channels to shut down:
+	// a channel that is being opened holds its own lock until graphsync has
+	// run the outgoing request hook, which needs dtChannelsLk.
+	t.dtChannelsLk.RLock()
+	chs := make([]*dtChannel, 0, len(t.dtChannels))
+	for _, ch := range t.dtChannels {
+		chs = append(chs, ch)
+	}
+	t.dtChannelsLk.RUnlock()
 
 	var eg errgroup.Group
-	for _, ch := range t.dtChannels {
+	for _, ch := range chs {
 		ch := ch
 		eg.Go(func() error {
 			return ch.shutdown(ctx)
